@@ -819,6 +819,22 @@ theorem C04_unseeded_reset_fresh_modulo_rng (acts : List Val) (i j : Inst) (G G'
   simp only [runSolo]
   rw [h.1, steps_rel acts _ _ _ _ h.2]
 
+/-- **The multi-agent environment.** Whatever seed argument `PrimaiteRayMARLEnv.reset` is given (none, 0, any integer): on a long-lived
+instance with an arbitrary past and on an instance built for that episode's scenario, the reset followed by any actions returns the same
+values PROVIDED both start from the same generator state - the class never seeds, so that proviso cannot be dropped
+(`C04_unseeded_reset_depends_on_rng`); everything else of the past is erased as for the single-agent environment. -/
+theorem C04_marl_reset_fresh_modulo_rng (s : Option Int) (acts : List Val) (i j : Inst) (G G' : Store)
+    (hm : EpisodeMatch i j) (hG : G gImport = G' gImport) (hN : G gNmne = G' gNmne) (hR : G gRng = G' gRng) :
+    ∃ op, marlResetCall s = some op ∧
+      runSolo (op :: acts.map fun a => (stepProg, a)) i G = runSolo (op :: acts.map fun a => (stepProg, a)) j G' := by
+  refine ⟨(resetProgNoSeed, 0), rfl, ?_⟩
+  have h := reset_noseed_episode_match 0 i j G G' hm hG hN hR
+  simp only [runSolo]
+  rw [h.1, steps_rel acts _ _ _ _ h.2]
+
+/-- the wrapper `PrimaiteRayEnv` IS the single-agent environment for every seed argument: all `reset` theorems apply to it -/
+theorem C04_ray_env_reset_is_gym_reset (s : Option Int) (gen : Bool) : rayEnvResetCall s gen = resetCall s gen := rfl
+
 /-- and the generator state does matter for an unseeded reset (by design; not claimed as a violation): same instance, generators 5 / 0 -/
 theorem C04_unseeded_reset_depends_on_rng :
     runSolo [(resetProgNoSeed, 0)] (initInst 7 0 0 1 0 0) (fun g => if g = gRng then 5 else 0)
@@ -1252,6 +1268,28 @@ theorem C04_gen_reset_shape :
     ∧ constantSchedulerReturns = "copy.deepcopy(self.config)"
     ∧ listSchedulerReturns = ["parsed_cfg"] ∧ listSchedulerParsedBy = "yaml.safe_load"
     ∧ listSchedulerAssigns = ["_exceeded_episode_list"] := by decide +kernel
+
+open Primaite.Gen.IsolationReset in
+/-- The other two environment classes. `PrimaiteRayMARLEnv`: `reset` and `__init__` build the game from nothing but the scheduler and the
+episode counter (same expression as the single-agent environment), `reset` (re)binds only the counter and the game, no other method assigns
+an attribute of the environment, the agents are looked up in the CURRENT game on every use (one statement), and NO call in the class seeds
+a generator or is handed a seed (so `marlResetCall` / `marlConstructCall` ignore their argument). `PrimaiteRayEnv`: binds a
+`PrimaiteGymEnv` once, assigns nothing afterwards and only delegates (`reset(seed=seed)`, `step(action)`, `close()`, `game`). -/
+theorem C04_gen_other_env_classes :
+    marlResetGameSource = "PrimaiteGame.from_config(self.episode_scheduler(self.episode_counter))"
+    ∧ marlInitGameSource = "PrimaiteGame.from_config(self.episode_scheduler(self.episode_counter))"
+    ∧ marlResetAssigns = ["episode_counter", "game"]
+    ∧ marlResetTopLevelTargets.contains "self.game" = true
+    ∧ marlLaterWrites = []
+    ∧ marlSeedCalls = []
+    ∧ marlAgentsStatements = 1
+    ∧ marlAgentsReturns = ["{name: self.game.rl_agents[name] for name in self._agent_ids}"]
+    ∧ rayEnvSource = ["PrimaiteGymEnv(env_config=env_config)"]
+    ∧ rayEnvLaterWrites = []
+    ∧ rayEnvResetCalls = ["self.env.reset(seed=seed)"]
+    ∧ rayEnvStepCalls = ["self.env.step(action)"]
+    ∧ rayEnvCloseCalls = ["self.env.close()"]
+    ∧ rayEnvGameReturns = ["self.env.game"] := by decide +kernel
 
 /-! ### tie: the seed handling of `reset` / `__init__` / `set_random_seed` -/
 
